@@ -470,6 +470,11 @@ func (p *proxyConn) writeResponse(res *http.Response) error {
 		if req.Method == http.MethodConnect && res.StatusCode/100 == 2 {
 			res.Close = false
 		}
+		// Likewise for a protocol upgrade: "Connection: Upgrade, close" asks for
+		// the upgrade, the connection then belongs to the new protocol.
+		if res.StatusCode == http.StatusSwitchingProtocols {
+			res.Close = false
+		}
 	}
 
 	// A body that the transport transparently decompressed has lost its
